@@ -493,4 +493,616 @@ theorem mid_cut_facts {kids c : List Node} {f t : Nat} (h : fcutLoop kids f t = 
       = (((ftoks kids).drop f).take (t - f)).length := by rw [hlen]; omega
   rw [this]; simp
 
+/-! ### Lemma B: the left join of `threeWay` — a list joined at `p` with its own suffix cut -/
+
+theorem twoWay_left (S : Schema) : ∀ (O : List Node) (p : Nat) (R : List Node),
+    p ≤ fsize O → fcutLoop O p (fsize O) = .ok R → S.checkKids O = true → fnorm O = true →
+    ∃ X, twoWay S O p R (depthAt O p) = .ok X
+  | [], p, R, hp, _, _, _ => by
+    have : p = 0 := by simpa using hp
+    subst this
+    unfold twoWay; simp
+  | n :: ns, p, R, hp, h, hv, hn => by
+    obtain ⟨hnn, hnns⟩ := fnorm_cons hn
+    have hpos := Node.size_pos_of_norm n hnn
+    simp only [fsize_cons] at hp
+    by_cases hp0 : p = 0
+    · subst hp0
+      unfold twoWay; simp
+    by_cases hle : n.size ≤ p
+    · rw [fcutLoop_skip n ns p _ (by simp; omega) hle] at h
+      have e : fsize (n :: ns) - n.size = fsize ns := by simp
+      rw [e] at h
+      have hv' : S.checkKids ns = true := by
+        simp only [checkKids_cons, Bool.and_eq_true] at hv; exact hv.2
+      obtain ⟨r, hr⟩ := twoWay_left S ns (p - n.size) R (by omega) h hv' hnns
+      unfold twoWay
+      rw [if_neg hp0, if_pos hle, depthAt_skip n ns p hle, hr]
+      exact ⟨_, rfl⟩
+    cases n with
+    | text s m =>
+      simp only [Node.size_text, Nat.not_le] at hle hpos
+      obtain ⟨s', rest, hct, _, _⟩ := fcutLoop_text_inv h (by rw [fsize_cons, Node.size_text]; omega) hle (Or.inl (by omega))
+      have hso := (cutText_splitOk hct).1
+      unfold twoWay
+      rw [if_neg hp0, if_neg (by simp; omega)]
+      simp [hso, depthAt_nonelem_cons (.text s m) ns p (by simpa using hle) (by simp)]
+    | leaf ty a m => simp at hle; omega
+    | elem ty a m kids =>
+      simp only [Node.size_elem, Nat.not_le] at hle
+      obtain ⟨hvc, hvk, hnk, _, _⟩ := elem_facts hv (fnormKids_of_fnorm hn)
+      obtain ⟨c, rest, hct, _, hM⟩ := fcutLoop_elem_inv h (by simp) hle (Or.inl (by omega))
+      have hmin : min (fsize kids) (fsize (Node.elem ty a m kids :: ns) - 1) = fsize kids := by
+        simp; omega
+      rw [hmin, fcut_eq_loop (fnormKids_of_fnorm hnk) (by omega) (Nat.le_refl _) (by omega)] at hct
+      obtain ⟨htk, hdc, hnc⟩ := suffix_cut_facts hct (by omega) hnk
+      obtain ⟨r, hr⟩ := twoWay_left S kids (p - 1) c (by omega) hct hvk hnk
+      have hre : fromArray r = kids :=
+        twoWay_rebuild S hr (fnormKids_of_fnorm hnk) hnc hnk
+          (by rw [htk]; exact List.take_append_drop _ _)
+      have hd : depthAt (Node.elem ty a m kids :: ns) p = 1 + depthAt kids (p - 1) :=
+        depthAt_elem_cons _ _ _ _ _ _ (by omega) hle
+      subst hM
+      have hs : splitRight (Node.elem ty a m c :: rest) (1 + depthAt kids (p - 1))
+          = some (.deep (.elem ty a m c) (depthAt kids (p - 1)) rest) := by
+        have := splitRight_elem ty a m c rest (1 + depthAt kids (p - 1)) (by omega) (by omega)
+        simpa using this
+      unfold twoWay
+      rw [if_neg hp0, if_neg (by simp; omega)]
+      simp only [hd, hs, compatibleContent_self, if_true, hr, hre, close_ok_of_valid S ty a m kids hvc]
+      exact ⟨_, rfl⟩
+
+/-! ### Lemma C: the right join — the prefix cut up to `q` joined back with the list at `q` -/
+
+theorem twoWay_right (S : Schema) : ∀ (O : List Node) (q : Nat) (E R : List Node) (t : Nat),
+    q ≤ fsize O → fcutLoop O 0 q = .ok E → splitRight R t = splitRight O q →
+    S.checkKids O = true → fnorm O = true →
+    ∃ X, twoWay S E (fsize E - depthAt O q) R t = .ok X
+  | [], q, E, R, t, hq, h, hs, _, _ => by
+    have : q = 0 := by simpa using hq
+    subst this
+    rw [fcutLoop_zero] at h
+    simp at h; subst h
+    unfold twoWay; rw [hs]; simp
+  | n :: ns, q, E, R, t, hq, h, hs, hv, hn => by
+    obtain ⟨hnn, hnns⟩ := fnorm_cons hn
+    have hpos := Node.size_pos_of_norm n hnn
+    simp only [fsize_cons] at hq
+    by_cases hq0 : q = 0
+    · subst hq0
+      rw [fcutLoop_zero] at h
+      simp at h; subst h
+      unfold twoWay; rw [hs]; simp
+    by_cases hle : n.size ≤ q
+    · obtain ⟨rest, hr, hM⟩ := fcutLoop_whole_inv h hpos hle
+      subst hM
+      obtain ⟨_, hd, _⟩ := prefix_cut_facts hr (by omega) hnns
+      rw [splitRight_skip n ns q hq0 hle] at hs
+      have hv' : S.checkKids ns = true := by
+        simp only [checkKids_cons, Bool.and_eq_true] at hv; exact hv.2
+      obtain ⟨X, hX⟩ := twoWay_right S ns (q - n.size) rest R t (by omega) hr hs hv' hnns
+      rw [depthAt_skip n ns q hle]
+      have e : fsize (n :: rest) - depthAt ns (q - n.size) - n.size
+          = fsize rest - depthAt ns (q - n.size) := by simp; omega
+      unfold twoWay
+      rw [if_neg (by simp; omega), if_pos (by simp; omega), e, hX]
+      exact ⟨_, rfl⟩
+    cases n with
+    | text s m =>
+      simp only [Node.size_text, Nat.not_le] at hle hpos
+      obtain ⟨s', rest, hct, hr, hM⟩ := fcutLoop_text_inv h hq0 hpos (Or.inr hle)
+      have hmin : min s.length q = q := by omega
+      rw [hmin] at hct
+      have h0 : q - s.length = 0 := by omega
+      rw [h0, fcutLoop_zero] at hr
+      simp at hr; subst hr; subst hM
+      have hs' := (cutText_ok hct).1
+      have hso := (cutText_splitOk hct).2
+      rw [splitRight_text s m ns q hq0 hle hso] at hs
+      have hlen : s'.length = q := by rw [hs']; simp; omega
+      have hd : depthAt (Node.text s m :: ns) q = 0 :=
+        depthAt_nonelem_cons _ ns q (by simpa using hle) (by simp)
+      rw [hd]
+      unfold twoWay
+      simp only [fsize_cons, fsize_nil, Node.size_text, hlen, Nat.add_zero, Nat.sub_zero,
+        if_neg hq0, Nat.le_refl, if_true, Nat.sub_self]
+      unfold twoWay
+      simp [hs]
+    | leaf ty a m => simp at hle; omega
+    | elem ty a m kids =>
+      simp only [Node.size_elem, Nat.not_le] at hle
+      obtain ⟨hvc, hvk, hnk, _, _⟩ := elem_facts hv (fnormKids_of_fnorm hn)
+      obtain ⟨c, rest, hct, hr, hM⟩ := fcutLoop_elem_inv h hq0 (by omega) (Or.inr hle)
+      have hmin : min (fsize kids) (q - 1) = q - 1 := by omega
+      have h0 : q - (2 + fsize kids) = 0 := by omega
+      rw [h0, fcutLoop_zero] at hr
+      simp at hr; subst hr; subst hM
+      rw [hmin, Nat.zero_sub, fcut_eq_loop (fnormKids_of_fnorm hnk) (by omega) (by omega) (by omega)] at hct
+      obtain ⟨htk, hdc, hnc⟩ := prefix_cut_facts hct (by omega) hnk
+      rw [splitRight_elem ty a m kids ns q hq0 hle] at hs
+      obtain ⟨r, hr⟩ := twoWay_right S kids (q - 1) c kids (q - 1) (by omega) hct rfl hvk hnk
+      have hre : fromArray r = kids :=
+        twoWay_rebuild S hr hnc (fnormKids_of_fnorm hnk) hnk
+          (by rw [htk]; exact List.take_append_drop _ _)
+      have hd : depthAt (Node.elem ty a m kids :: ns) q = 1 + depthAt kids (q - 1) :=
+        depthAt_elem_cons _ _ _ _ _ _ (by omega) hle
+      have hf : fsize [Node.elem ty a m c] - depthAt (Node.elem ty a m kids :: ns) q
+          = (fsize c - depthAt kids (q - 1)) + 1 := by
+        rw [hd]; simp; omega
+      rw [hf]
+      unfold twoWay
+      rw [if_neg (by omega), if_neg (by simp; omega)]
+      simp only [hs, compatibleContent_self, if_true, Nat.add_sub_cancel, hr, hre,
+        close_ok_of_valid S ty a m kids hvc]
+      exact ⟨_, rfl⟩
+
+/-! ### the right join of `threeWay` / `flatTail` -/
+
+/-- what `rightJoin` needs to know about the slice content `M` and the right split -/
+def LastOK (S : Schema) (M : List Node) (b : Nat) : RSplit → Prop
+  | .flat _ => b = 0
+  | .deep cR innerT _ => ∃ ty a m kidsR kidsE, cR = .elem ty a m kidsR ∧
+      M.getLast? = some (.elem ty a m kidsE) ∧ fcutLoop kidsR 0 innerT = .ok kidsE ∧
+      innerT ≤ fsize kidsR ∧ b = 1 + depthAt kidsR innerT ∧
+      S.validContent ty kidsR = true ∧ S.checkKids kidsR = true ∧ fnorm kidsR = true
+
+theorem lastOK_cons {S : Schema} {M : List Node} {b : Nat} {rs : RSplit} (x : Node)
+    (h : LastOK S M b rs) : LastOK S (x :: M) b rs := by
+  cases rs with
+  | flat r => exact h
+  | deep c i r =>
+    obtain ⟨ty, a, m, kR, kE, h1, h2, h3⟩ := h
+    refine ⟨ty, a, m, kR, kE, h1, ?_, h3⟩
+    cases M with
+    | nil => simp at h2
+    | cons y ys => rw [List.getLast?_cons_cons]; exact h2
+
+theorem lastOK_ne_nil {S : Schema} {M : List Node} {b : Nat} {c : Node} {i : Nat} {r : List Node}
+    (h : LastOK S M b (.deep c i r)) : M ≠ [] ∧ b ≠ 0 := by
+  obtain ⟨ty, a, m, kR, kE, _, h2, _, _, hb, _⟩ := h
+  refine ⟨?_, by omega⟩
+  intro h0; subst h0; simp at h2
+
+theorem rightJoin_ok {S : Schema} {M : List Node} {b : Nat} {rs : RSplit} (h : LastOK S M b rs) :
+    ∃ rj, rightJoin S M b rs = .ok rj := by
+  cases rs with
+  | flat r =>
+    simp only [LastOK] at h; subst h
+    exact ⟨[], by simp [rightJoin]⟩
+  | deep c i r =>
+    obtain ⟨ty, a, m, kR, kE, rfl, hl, hcut, hi, hb, hvc, hvk, hnk⟩ := h
+    obtain ⟨htk, hd, hnE⟩ := prefix_cut_facts hcut hi hnk
+    obtain ⟨X, hX⟩ := twoWay_right S kR i kE kR i hi hcut rfl hvk hnk
+    have hre : fromArray X = kR :=
+      twoWay_rebuild S hX hnE (fnormKids_of_fnorm hnk) hnk
+        (by rw [htk]; exact List.take_append_drop _ _)
+    subst hb
+    unfold rightJoin
+    simp only [hl, Nat.add_sub_cancel_left, compatibleContent_self, if_true, hX, hre,
+      close_ok_of_valid S ty a m kR hvc]
+    rw [if_neg (by omega)]
+    exact ⟨_, rfl⟩
+
+theorem flatTail_ok {S : Schema} {M : List Node} {b : Nat} {R : List Node} {t : Nat} {rs : RSplit}
+    (hs : splitRight R t = some rs) (h : LastOK S M b rs) : ∃ X, flatTail S M 0 b R t = .ok X := by
+  obtain ⟨rj, hrj⟩ := rightJoin_ok h
+  unfold flatTail
+  simp only [hs, hrj]
+  rw [if_neg (by simp)]
+  exact ⟨_, rfl⟩
+
+theorem lastOK_of_cut0 (S : Schema) : ∀ (L : List Node) (t : Nat) (M : List Node) (rs : RSplit),
+    t ≤ fsize L → fcutLoop L 0 t = .ok M → splitRight L t = some rs →
+    S.checkKids L = true → fnorm L = true → LastOK S M (depthAt L t) rs
+  | [], t, M, rs, ht, _, hs, _, _ => by
+    have : t = 0 := by simpa using ht
+    subst this
+    simp at hs; subst hs
+    simp [LastOK]
+  | n :: ns, t, M, rs, ht, h, hs, hv, hn => by
+    obtain ⟨hnn, hnns⟩ := fnorm_cons hn
+    have hpos := Node.size_pos_of_norm n hnn
+    simp only [fsize_cons] at ht
+    by_cases ht0 : t = 0
+    · subst ht0
+      simp at hs; subst hs
+      simp [LastOK]
+    by_cases hle : n.size ≤ t
+    · obtain ⟨rest, hr, hM⟩ := fcutLoop_whole_inv h hpos hle
+      subst hM
+      rw [splitRight_skip n ns t ht0 hle] at hs
+      have hv' : S.checkKids ns = true := by
+        simp only [checkKids_cons, Bool.and_eq_true] at hv; exact hv.2
+      rw [depthAt_skip n ns t hle]
+      exact lastOK_cons n (lastOK_of_cut0 S ns (t - n.size) rest rs (by omega) hr hs hv' hnns)
+    cases n with
+    | text s m =>
+      rw [splitRight_cons, if_neg ht0, if_neg hle] at hs
+      simp only at hs
+      split at hs
+      · simp at hs; subst hs
+        simp only [LastOK]
+        exact depthAt_nonelem_cons _ ns t (by omega) (by simp)
+      · simp at hs
+    | leaf ty a m => simp at hle; omega
+    | elem ty a m kids =>
+      simp only [Node.size_elem, Nat.not_le] at hle
+      obtain ⟨hvc, hvk, hnk, _, _⟩ := elem_facts hv (fnormKids_of_fnorm hn)
+      rw [splitRight_elem ty a m kids ns t ht0 hle] at hs
+      simp at hs; subst hs
+      obtain ⟨c, rest, hct, hr, hM⟩ := fcutLoop_elem_inv h ht0 (by omega) (Or.inr hle)
+      have hmin : min (fsize kids) (t - 1) = t - 1 := by omega
+      have h0 : t - (2 + fsize kids) = 0 := by omega
+      rw [h0, fcutLoop_zero] at hr
+      simp at hr; subst hr; subst hM
+      rw [hmin, Nat.zero_sub, fcut_eq_loop (fnormKids_of_fnorm hnk) (by omega) (by omega) (by omega)] at hct
+      exact ⟨ty, a, m, kids, c, rfl, by simp, hct, by omega,
+        depthAt_elem_cons _ _ _ _ _ _ (by omega) hle, hvc, hvk, hnk⟩
+
+/-! ### the three-way join with the slice cut from the same range -/
+
+theorem threeWay_rebuild (S : Schema) {L M R O X : List Node} {f a b t : Nat}
+    (h : threeWay S L f 0 M a b R t = .ok X) (hL : fnormKids L = true) (hM : fnormKids M = true)
+    (hR : fnormKids R = true) (hO : fnorm O = true) (ha : a ≤ spineL M) (hb : b ≤ spineR M)
+    (htk : (ftoks L).take f ++ midToks M a b ++ (ftoks R).drop t = ftoks O) :
+    fromArray X = O := by
+  apply ftoks_inj _ _ (fromArray_norm _ (threeWay_norm S _ _ _ _ _ _ _ _ _ hL hM hR h)) hO
+  rw [fromArray_toks, threeWay_toks S _ _ _ _ _ _ _ _ _ ha hb h, htk]
+
+set_option linter.unusedVariables false in
+theorem splice_mid {α} (l : List α) (f t : Nat) (hft : f ≤ t) (ht : t ≤ l.length) :
+    l.take f ++ (l.drop f).take (t - f) ++ l.drop t = l := by
+  have h1 : (l.drop f).take (t - f) ++ l.drop t = l.drop f := by
+    have : l.drop t = (l.drop f).drop (t - f) := by
+      rw [List.drop_drop]; congr 1; omega
+    rw [this, List.take_append_drop]
+  rw [List.append_assoc, h1, List.take_append_drop]
+
+theorem threeWay_cut (S : Schema) : ∀ (L : List Node) (f t : Nat) (M R : List Node) (t0 : Nat),
+    f < t → t ≤ fsize L → fcutLoop L f t = .ok M → splitRight R t0 = splitRight L t →
+    S.checkKids L = true → fnorm L = true →
+    ∃ X, threeWay S L f 0 M (depthAt L f) (depthAt L t) R t0 = .ok X
+  | [], f, t, M, R, t0, hft, ht, _, _, _, _ => by
+    have : t ≤ 0 := by simpa using ht
+    omega
+  | n :: ns, f, t, M, R, t0, hft, ht, h, hs, hv, hn => by
+    obtain ⟨hnn, hnns⟩ := fnorm_cons hn
+    have hpos := Node.size_pos_of_norm n hnn
+    have ht0 : t ≠ 0 := by omega
+    have hv' : S.checkKids ns = true := by
+      simp only [checkKids_cons, Bool.and_eq_true] at hv; exact hv.2
+    obtain ⟨rs, hrs⟩ := splitRight_total (n :: ns) t ht
+      (fcutLoop_aligned (n :: ns) f t M hft ht h).2
+    rw [hrs] at hs
+    simp only [fsize_cons] at ht
+    by_cases hf0 : f = 0
+    · subst hf0
+      have hl := lastOK_of_cut0 S (n :: ns) t M rs (by simp; omega) h hrs hv hn
+      obtain ⟨X, hX⟩ := flatTail_ok hs hl
+      unfold threeWay
+      simp only [if_true, depthAt_zero]
+      exact ⟨X, hX⟩
+    by_cases hle : n.size ≤ f
+    · rw [fcutLoop_skip n ns f t ht0 hle] at h
+      rw [splitRight_skip n ns t ht0 (by omega)] at hrs
+      obtain ⟨X, hX⟩ := threeWay_cut S ns (f - n.size) (t - n.size) M R t0 (by omega) (by omega) h
+        (hs.trans hrs.symm) hv' hnns
+      unfold threeWay
+      rw [if_neg hf0, if_pos hle, depthAt_skip n ns f hle, depthAt_skip n ns t (by omega), hX]
+      exact ⟨_, rfl⟩
+    cases n with
+    | text s m =>
+      simp only [Node.size_text, Nat.not_le] at hle hpos ht
+      obtain ⟨s', rest, hct, hr, hM⟩ := fcutLoop_text_inv h ht0 hle (Or.inl (by omega))
+      subst hM
+      have hso := cutText_splitOk hct
+      have hdf : depthAt (Node.text s m :: ns) f = 0 :=
+        depthAt_nonelem_cons _ ns f (by simpa using hle) (by simp)
+      have hl : LastOK S (Node.text s' m :: rest) (depthAt (Node.text s m :: ns) t) rs := by
+        by_cases hlt : s.length ≤ t
+        · rw [splitRight_skip _ ns t ht0 (by simpa using hlt)] at hrs
+          rw [depthAt_skip _ ns t (by simpa using hlt)]
+          simp only [Node.size_text] at hrs ⊢
+          exact lastOK_cons _ (lastOK_of_cut0 S ns (t - s.length) rest rs (by omega) hr hrs hv' hnns)
+        · have : min s.length t = t := by omega
+          rw [this] at hso
+          rw [splitRight_text s m ns t ht0 (by omega) hso.2] at hrs
+          simp at hrs; subst hrs
+          simp only [LastOK]
+          exact depthAt_nonelem_cons _ ns t (by simp; omega) (by simp)
+      obtain ⟨X, hX⟩ := flatTail_ok hs hl
+      unfold threeWay
+      rw [if_neg hf0, if_neg (by simp; omega)]
+      simp only [hso.1, hdf, hX]
+      simp
+    | leaf ty a m => simp at hle; omega
+    | elem tyL aL mL kidsL =>
+      simp only [Node.size_elem, Nat.not_le] at hle ht
+      obtain ⟨hvc, hvk, hnk, _, _⟩ := elem_facts hv (fnormKids_of_fnorm hn)
+      obtain ⟨c, rest, hct, hr, hM⟩ := fcutLoop_elem_inv h ht0 hle (Or.inl (by omega))
+      subst hM
+      have hda : depthAt (Node.elem tyL aL mL kidsL :: ns) f = depthAt kidsL (f - 1) + 1 := by
+        rw [depthAt_elem_cons _ _ _ _ _ _ (by omega) hle]; omega
+      by_cases hlt : t < 2 + fsize kidsL
+      · -- both ends inside this child: one level down
+        have hmin : min (fsize kidsL) (t - 1) = t - 1 := by omega
+        have h0 : t - (2 + fsize kidsL) = 0 := by omega
+        rw [h0, fcutLoop_zero] at hr
+        simp at hr; subst hr
+        rw [hmin, fcut_eq_loop (fnormKids_of_fnorm hnk) (by omega) (by omega) (by omega)] at hct
+        rw [splitRight_elem tyL aL mL kidsL ns t ht0 hlt] at hrs
+        simp at hrs; subst hrs
+        have hdb : depthAt (Node.elem tyL aL mL kidsL :: ns) t = depthAt kidsL (t - 1) + 1 := by
+          rw [depthAt_elem_cons _ _ _ _ _ _ (by omega) hlt]; omega
+        obtain ⟨hmid, hsl, hsr, hnc⟩ := mid_cut_facts hct (by omega) (by omega) hnk
+        obtain ⟨X, hX⟩ := threeWay_cut S kidsL (f - 1) (t - 1) c kidsL (t - 1) (by omega) (by omega)
+          hct rfl hvk hnk
+        have hre : fromArray X = kidsL :=
+          threeWay_rebuild S hX (fnormKids_of_fnorm hnk) hnc (fnormKids_of_fnorm hnk) hnk hsl hsr
+            (by rw [hmid]; exact splice_mid _ _ _ (by omega) (by rw [ftoks_length]; omega))
+        unfold threeWay
+        rw [if_neg hf0, if_neg (by simp; omega)]
+        simp only [hs, hda, hdb]
+        simp [compatibleContent_self, hX, hre, close_ok_of_valid S tyL aL mL kidsL hvc]
+      · -- `t` at or beyond the end of this child: left join, middle, right join
+        have hge : 2 + fsize kidsL ≤ t := by omega
+        have hmin : min (fsize kidsL) (t - 1) = fsize kidsL := by omega
+        rw [hmin, fcut_eq_loop (fnormKids_of_fnorm hnk) (by omega) (Nat.le_refl _) (by omega)] at hct
+        rw [splitRight_skip _ ns t ht0 (by simpa using hge)] at hrs
+        simp only [Node.size_elem] at hrs
+        have hdb : depthAt (Node.elem tyL aL mL kidsL :: ns) t = depthAt ns (t - (2 + fsize kidsL)) := by
+          rw [depthAt_skip _ ns t (by simpa using hge)]; simp
+        have hl0 := lastOK_of_cut0 S ns (t - (2 + fsize kidsL)) rest rs (by omega) hr hrs hv' hnns
+        obtain ⟨htk, hdc, hnc⟩ := suffix_cut_facts hct (by omega) hnk
+        obtain ⟨lr, hlr⟩ := twoWay_left S kidsL (f - 1) c (by omega) hct hvk hnk
+        have hre : fromArray lr = kidsL :=
+          twoWay_rebuild S hlr (fnormKids_of_fnorm hnk) hnc hnk
+            (by rw [htk]; exact List.take_append_drop _ _)
+        obtain ⟨rj, hrj⟩ := rightJoin_ok (lastOK_cons (Node.elem tyL aL mL c) hl0)
+        unfold threeWay
+        rw [if_neg hf0, if_neg (by simp; omega)]
+        simp only [hs, hda, hdb]
+        cases rs with
+        | flat r =>
+          simp only [LastOK] at hl0
+          rw [hl0] at hrj ⊢
+          simp [threeWay.rightJoinCheck, compatibleContent_self, hlr, hre,
+            close_ok_of_valid S tyL aL mL kidsL hvc, hrj]
+        | deep cR i r =>
+          obtain ⟨hne, hb0⟩ := lastOK_ne_nil hl0
+          cases rest with
+          | nil => exact absurd rfl hne
+          | cons y ys =>
+            obtain ⟨ty, a, m, kR, kE, rfl, _, _, _, hb, _⟩ := hl0
+            have hb' : depthAt ns (t - (2 + fsize kidsL)) = depthAt kR i + 1 := by omega
+            rw [hb'] at hrj ⊢
+            simp [threeWay.rightJoinCheck, compatibleContent_self, hlr, hre,
+              close_ok_of_valid S tyL aL mL kidsL hvc, hrj]
+
+/-! ### `atLevel`: the slice cut at this level goes back in -/
+
+theorem atLevel_reinsert (S : Schema) (ty : TypeId) (level c : List Node) (f t : Nat)
+    (hft : f < t) (ht : t ≤ fsize level) (hc : fcut level f t = .ok c)
+    (hvc : S.validContent ty level = true) (hv : S.checkKids level = true)
+    (hn : fnorm level = true) :
+    atLevel S ⟨c, depthAt level f, depthAt level t⟩ ty level f t 0 = .ok level := by
+  have hcl : fcutLoop level f t = .ok c := by
+    rw [← fcut_eq_loop (fnormKids_of_fnorm hn) (by omega) ht (by omega)]; exact hc
+  obtain ⟨hmid, hsl, hsr, hnc⟩ := mid_cut_facts hcl hft ht hn
+  have hsz : fsize c ≠ 0 := by
+    have := congrArg List.length hmid
+    simp [midToks, ftoks_length] at this
+    omega
+  unfold atLevel
+  simp only []
+  rw [if_neg hsz]
+  by_cases hcl0 : depthAt level f = 0 ∧ depthAt level t = 0
+  · obtain ⟨hdf, hdt⟩ := hcl0
+    obtain ⟨haf, hat⟩ := fcut_aligned hft ht hc
+    obtain ⟨l, hl⟩ := fcut_total level 0 f (by omega) (by omega) (alignedAt_zero _) haf hn
+    obtain ⟨r, hr⟩ := fcut_total level t (fsize level) ht (Nat.le_refl _) hat (alignedAt_fsize _) hn
+    have hX : fappend (fappend l c) r = level := by
+      apply ftoks_inj _ _ (fappend_norm _ _ (fappend_norm _ _ (fcut_norm _ _ _ _ hn hl)
+        (fcut_norm _ _ _ _ hn hc)) (fcut_norm _ _ _ _ hn hr)) hn
+      rw [fappend_toks, fappend_toks, fcut_prefix_toks hl (by omega) hdf, fcut_suffix_toks hr hdt,
+        fcut_toks level c f t hft ht hc, ancestorOpens_nil_of_depth hdf, hdt]
+      simp only [List.nil_append, List.replicate_zero, List.append_nil]
+      exact splice_mid _ _ _ (by omega) (by rw [ftoks_length]; exact ht)
+    simp only [hdf, hdt, decide_true, Bool.and_self, if_true, hl, hr, hX, hvc]
+  · have hcond : ¬ ((decide (depthAt level f = 0) && decide (depthAt level t = 0) &&
+        decide (depthAt level f = 0) && decide (depthAt level t = 0)) = true) := by
+      simp only [Bool.and_eq_true, decide_eq_true_eq]
+      intro h; exact hcl0 ⟨h.1.1.1, h.2⟩
+    rw [if_neg hcond]
+    obtain ⟨X, hX⟩ := threeWay_cut S level f t c level t hft ht hcl rfl hv hn
+    have hre : fromArray X = level :=
+      threeWay_rebuild S hX (fnormKids_of_fnorm hn) hnc (fnormKids_of_fnorm hn) hn hsl hsr
+        (by rw [hmid]; exact splice_mid _ _ _ (by omega) (by rw [ftoks_length]; exact ht))
+    simp only [hX, Except.map, hre, hvc, if_true]
+
+theorem atLevel_empty (S : Schema) (ty : TypeId) (level : List Node) (f extra : Nat)
+    (hf : f ≤ fsize level) (ha : alignedAt level f = true)
+    (hvc : S.validContent ty level = true) (hv : S.checkKids level = true)
+    (hn : fnorm level = true) :
+    atLevel S Slice.empty ty level f f extra = .ok level := by
+  obtain ⟨X, hX⟩ := twoWay_same S level f level f hf ha hv (fnormKids_of_fnorm hn) rfl
+  have hre : fromArray X = level :=
+    twoWay_rebuild S hX (fnormKids_of_fnorm hn) (fnormKids_of_fnorm hn) hn
+      (List.take_append_drop _ _)
+  unfold atLevel
+  simp only [Slice.empty, fsize_nil, if_true, hX, Except.map, hre, hvc]
+
+/-! ### `outer`: descending to the level of the cut -/
+
+theorem child_facts {S : Schema} {pre ns : List Node} {ty : TypeId} {a : Attrs} {m : Marks}
+    {kids : List Node} (hv : S.checkKids (pre ++ .elem ty a m kids :: ns) = true)
+    (hn : fnorm (pre ++ .elem ty a m kids :: ns) = true) :
+    S.validContent ty kids = true ∧ S.checkKids kids = true ∧ fnorm kids = true := by
+  rw [checkKids_append] at hv
+  simp only [Bool.and_eq_true] at hv
+  have hn' := fnormKids_of_fnorm hn
+  rw [fnormKids_append] at hn'
+  simp only [Bool.and_eq_true] at hn'
+  obtain ⟨h1, h2, h3, _, _⟩ := elem_facts hv.2 hn'.2
+  exact ⟨h1, h2, h3⟩
+
+theorem outer_empty (S : Schema) : ∀ (rest : List Node) (ty : TypeId) (level : List Node)
+    (f0 idx f extra : Nat) (pre : List Node),
+    level = pre ++ rest → idx = pre.length → f0 = fsize pre + f → f ≤ fsize rest →
+    alignedAt level f0 = true → S.validContent ty level = true → S.checkKids level = true →
+    fnorm level = true →
+    outer S Slice.empty ty level f0 f0 idx rest f f extra = .ok level
+  | [], ty, level, f0, idx, f, extra, pre, hl, _, hf0, hf, ha, hvc, hv, hn => by
+    unfold outer
+    exact atLevel_empty S ty level f0 extra (by rw [hl, fsize_append]; omega) ha hvc hv hn
+  | n :: ns, ty, level, f0, idx, f, extra, pre, hl, hi, hf0, hf, ha, hvc, hv, hn => by
+    have hfl : f0 ≤ fsize level := by rw [hl, fsize_append]; omega
+    have here := atLevel_empty S ty level f0 extra hfl ha hvc hv hn
+    simp only [fsize_cons] at hf
+    unfold outer
+    split
+    · exact here
+    · rename_i hfz
+      split
+      · rename_i hle
+        refine outer_empty S ns ty level f0 (idx + 1) (f - n.size) extra (pre ++ [n]) ?_ ?_ ?_
+          (by omega) ha hvc hv hn
+        · simp [hl]
+        · simp [hi]
+        · rw [fsize_append]; simp; omega
+      · rename_i hlt
+        split
+        · rename_i tyC aC mC kidsC
+          simp only [Node.size_elem, Nat.not_le] at hlt
+          split
+          · subst hl
+            obtain ⟨h1, h2, h3⟩ := child_facts hv hn
+            have ha' : alignedAt kidsC (f - 1) = true := by
+              rw [hf0, alignedAt_append_pre, alignedAt_cons, if_neg hfz, if_neg (by simp; omega)] at ha
+              exact ha
+            have ih := outer_empty S kidsC tyC kidsC (f - 1) 0 (f - 1) (extra - 1) [] rfl rfl
+              (by simp) (by omega) ha' h1 h2 h3
+            rw [ih, hi]
+            simp only [set_mid]
+          · exact here
+        · exact here
+
+/-- inversion of `sliceHere` -/
+theorem sliceHere_inv {level : List Node} {f t : Nat} {s : Slice} (h : sliceHere level f t = .ok s) :
+    ∃ c, fcut level f t = .ok c ∧ s = ⟨c, depthAt level f, depthAt level t⟩ := by
+  unfold sliceHere at h
+  cases hc : fcut level f t with
+  | error e => simp [hc] at h
+  | ok c => simp [hc] at h; exact ⟨c, rfl, h.symm⟩
+
+theorem outer_slice (S : Schema) : ∀ (rest : List Node) (ty : TypeId) (level : List Node)
+    (f0 t0 idx f t : Nat) (pre : List Node) (s : Slice),
+    level = pre ++ rest → idx = pre.length → f0 = fsize pre + f → t0 = fsize pre + t →
+    f < t → t ≤ fsize rest → sliceScan level f0 t0 rest f t = .ok s →
+    S.validContent ty level = true → S.checkKids level = true → fnorm level = true →
+    ∃ e, s.openStart + e = depthAt level f0 ∧ s.openEnd + e = depthAt level t0 ∧
+      outer S s ty level f0 t0 idx rest f t e = .ok level
+  | [], ty, level, f0, t0, idx, f, t, pre, s, _, _, _, _, hft, ht, _, _, _, _ => by
+    have : t ≤ 0 := by simpa using ht
+    omega
+  | n :: ns, ty, level, f0, t0, idx, f, t, pre, s, hl, hi, hf0, ht0, hft, ht, h, hvc, hv, hn => by
+    simp only [fsize_cons] at ht
+    have htl : t0 ≤ fsize level := by rw [hl, fsize_append]; simp; omega
+    -- when the scan stops here
+    have here : sliceHere level f0 t0 = .ok s →
+        s.openStart + 0 = depthAt level f0 ∧ s.openEnd + 0 = depthAt level t0 ∧
+          atLevel S s ty level f0 t0 0 = .ok level := by
+      intro hh
+      obtain ⟨c, hc, rfl⟩ := sliceHere_inv hh
+      exact ⟨rfl, rfl, atLevel_reinsert S ty level c f0 t0 (by omega) htl hc hvc hv hn⟩
+    rw [sliceScan_cons] at h
+    split at h
+    · rename_i hfz
+      obtain ⟨h1, h2, h3⟩ := here h
+      refine ⟨0, h1, h2, ?_⟩
+      unfold outer
+      rw [if_pos hfz]; exact h3
+    · rename_i hfz
+      split at h
+      · rename_i hle
+        obtain ⟨e, h1, h2, h3⟩ := outer_slice S ns ty level f0 t0 (idx + 1) (f - n.size) (t - n.size)
+          (pre ++ [n]) s (by simp [hl]) (by simp [hi]) (by rw [fsize_append]; simp; omega)
+          (by rw [fsize_append]; simp; omega) (by omega) (by omega) h hvc hv hn
+        refine ⟨e, h1, h2, ?_⟩
+        unfold outer
+        rw [if_neg hfz, if_pos hle]; exact h3
+      · rename_i hlt
+        cases n with
+        | text s' m =>
+          obtain ⟨h1, h2, h3⟩ := here h
+          refine ⟨0, h1, h2, ?_⟩
+          unfold outer
+          rw [if_neg hfz, if_neg hlt]; exact h3
+        | leaf ty' a m =>
+          obtain ⟨h1, h2, h3⟩ := here h
+          refine ⟨0, h1, h2, ?_⟩
+          unfold outer
+          rw [if_neg hfz, if_neg hlt]; exact h3
+        | elem tyC aC mC kidsC =>
+          simp only at h
+          simp only [Node.size_elem, Nat.not_le] at hlt
+          split at h
+          · rename_i htsz
+            simp only [Node.size_elem] at htsz
+            subst hl
+            obtain ⟨c1, c2, c3⟩ := child_facts hv hn
+            obtain ⟨e, h1, h2, h3⟩ := outer_slice S kidsC tyC kidsC (f - 1) (t - 1) 0 (f - 1) (t - 1)
+              [] s rfl rfl (by simp) (by simp) (by omega) (by omega) h c1 c2 c3
+            refine ⟨e + 1, ?_, ?_, ?_⟩
+            · rw [hf0, depthAt_append_pre, depthAt_elem_cons _ _ _ _ _ _ (by omega) hlt]; omega
+            · rw [ht0, depthAt_append_pre, depthAt_elem_cons _ _ _ _ _ _ (by omega) htsz]; omega
+            · unfold outer
+              rw [if_neg hfz, if_neg (by simp; omega)]
+              simp only [Node.size_elem, Nat.add_sub_cancel, h3, hi, set_mid]
+              simp [htsz]
+          · rename_i htsz
+            obtain ⟨h1, h2, h3⟩ := here h
+            refine ⟨0, h1, h2, ?_⟩
+            unfold outer
+            rw [if_neg hfz, if_neg (by simp; omega)]
+            simp only [h3]
+            simp
+
+/-! ### `replaceKids` -/
+
+/-- **re-inserting the slice cut from `f … t` at `f … t` succeeds and gives back the child list.**
+    For `f = t` `sliceKids` returns `Slice.empty` without looking at the document, so range and
+    pair-alignment of `f` are hypotheses there; for `f < t` they follow from `sliceKids … = .ok s`. -/
+theorem replaceKids_reinsert (S : Schema) (ty : TypeId) (kids : List Node) (f t : Nat) (s : Slice)
+    (hvc : S.validContent ty kids = true) (hv : S.checkKids kids = true) (hn : fnorm kids = true)
+    (he : f = t → f ≤ fsize kids ∧ alignedAt kids f = true)
+    (hs : sliceKids kids f t = .ok s) : replaceKids S ty kids f t s = .ok kids := by
+  by_cases hft : f = t
+  · subst hft
+    obtain ⟨hf, ha⟩ := he rfl
+    simp [sliceKids] at hs; subst hs
+    have ho := outer_empty S kids ty kids f 0 f (depthAt kids f - 0) [] rfl rfl (by simp) hf ha hvc hv hn
+    unfold replaceKids
+    simp [inRange, hf, Slice.empty, Slice.wf, spineL, spineR]
+    simpa [Slice.empty] using ho
+  · have hs' := hs
+    unfold sliceKids at hs'
+    rw [if_neg hft] at hs'
+    split at hs'
+    · simp at hs'
+    · rename_i hg
+      simp only [inRange, Bool.or_eq_true, Bool.not_eq_true', decide_eq_false_iff_not,
+        decide_eq_true_eq, not_or, Nat.not_lt, Decidable.not_not] at hg
+      obtain ⟨⟨hf, ht⟩, hle⟩ := hg
+      have hlt : f < t := by omega
+      obtain ⟨e, h1, h2, h3⟩ := outer_slice S kids ty kids f t 0 f t [] s rfl rfl (by simp) (by simp)
+        hlt ht hs' hvc hv hn
+      have hwf := (sliceKids_norm kids f t s hn hs).2
+      have hex : depthAt kids f - s.openStart = e := by omega
+      unfold replaceKids
+      rw [if_neg (by simp [inRange, hf, ht]; omega)]
+      simp only []
+      rw [if_neg (by omega), if_neg (by omega), if_neg (by simp [hwf]), hex]
+      exact h3
+
 end PM
